@@ -56,6 +56,19 @@ Theorem C08_cur_point_sync :
 Proof. exact cur_point_sync. Qed.
 Print Assumptions C08_cur_point_sync.
 
+(** the writer's current_point is never more than the standard's current point (Table 59: h, re, the painting
+    operators included), and `v` is written only when the first control point equals it (C08-i, fixed) *)
+Theorem C08_writer_current_point :
+  below None None /\
+  (forall cur (st : option point * option point) o rest args k cur2 n,
+     below cur (fst st) -> ser_head cur o rest = Ok (args, k, cur2, n) ->
+     below cur2 (fst (fold_left iso_cp_step (o :: firstn n rest) st))) /\
+  (forall cur (st : option point * option point) c1 c2 p rest args cur2 n,
+     below cur (fst st) -> ser_head cur (OCurveTo c1 c2 p) rest = Ok (args, Kv, cur2, n) ->
+     exists q, fst st = Some q /\ pt_eqb c1 q = true /\ args = num2 c2 ++ num2 p).
+Proof. exact writer_cp_iso. Qed.
+Print Assumptions C08_writer_current_point.
+
 (** the standard's definitions of the shorthand and alias operators, for all operands *)
 Theorem C08_table : forall st,
   (forall a, pushed Ks a st = pushed Kh a st ++ pushed KS a st) /\
@@ -84,10 +97,10 @@ Theorem C08_table_d0_d1_refuted : ~ C08_table_full_statement.
 Proof. exact table_d0_d1_refuted. Qed.
 Print Assumptions C08_table_d0_d1_refuted.
 
-(** text rendering modes 6 and 7 are rejected (open finding C08-f) *)
-Theorem C08_table_Tr_refuted : ~ C08_table_Tr_full_statement.
-Proof. exact table_Tr_refuted. Qed.
-Print Assumptions C08_table_Tr_refuted.
+(** Table 106: every text rendering mode 0..7 yields its operation (C08-f, fixed) *)
+Theorem C08_table_Tr : C08_table_Tr_full_statement.
+Proof. exact table_Tr_full. Qed.
+Print Assumptions C08_table_Tr.
 
 (** operands never leak: after any operator the buffer is empty … *)
 Theorem C08_no_leak : forall st buf w r, beqb w (kw_name KBI) = false ->
